@@ -72,11 +72,19 @@ class Lock:
 
 # ----------------------------------------------------------------------------- builds
 def v_files():
+    """The development = the .v files under coq/theories that git tracks (added or committed). Work-in-progress
+    files that are not yet added are not part of it: an unfinished proof must not stall or break the checks.
+    Without a git checkout (a copied tree) every .v file counts."""
     out = []
     for d, _, fs in os.walk(os.path.join(COQ, "theories")):
         for f in fs:
             if f.endswith(".v"):
                 out.append(os.path.relpath(os.path.join(d, f), COQ))
+    if os.path.isdir(os.path.join(ROOT, ".git")):
+        p = subprocess.run(["git", "-C", ROOT, "ls-files", "coq/theories"], stdout=subprocess.PIPE, stderr=subprocess.DEVNULL, text=True)
+        tracked = {os.path.relpath(os.path.join(ROOT, x), COQ) for x in p.stdout.split() if x.endswith(".v")}
+        if p.returncode == 0 and tracked:
+            out = [f for f in out if f in tracked]
     return sorted(out)
 
 
@@ -415,6 +423,9 @@ def case_fails(engine, prop, cid, ops, want_strong):
     return bool(fails)
 
 
+PINNED_OPS = {"tables", "new", "cfg"}
+
+
 def shrink(engine, prop, cid, ops, want_strong, budget_s=90):
     """ddmin over the op lines of one case."""
     t0 = time.time()
@@ -424,8 +435,10 @@ def shrink(engine, prop, cid, ops, want_strong, budget_s=90):
         chunk = max(1, len(cur) // n)
         reduced = False
         for i in range(0, len(cur), chunk):
-            cand = cur[:i] + cur[i + chunk:]
-            if cand and case_fails(engine, prop, cid, cand, want_strong):
+            # set-up lines without which the rest of a case is meaningless are never removed (a case shrunk to
+            # "step on a table that does not exist" would fail for a reason of its own)
+            cand = [l for j, l in enumerate(cur) if not (i <= j < i + chunk) or l.split(" ", 1)[0] in PINNED_OPS]
+            if cand and len(cand) < len(cur) and case_fails(engine, prop, cid, cand, want_strong):
                 cur = cand
                 n = max(n - 1, 2)
                 reduced = True
@@ -608,6 +621,8 @@ def check(prop, tier):
             fs_sel = [x for x in fs if x.strong()] if f.strong() else fs
             if not fs_sel:   # flaky / not reproducible after shrinking: keep the original
                 small, fs_sel, io, mo = ops, [f], impl_out, model_out
+            if small is not ops:
+                fs_sel[0].detail += "  [before shrinking (%d ops): %s]" % (len(ops), f.detail[:600])
             (strong_found if f.strong() else weak_found).append((f.case_id, small, fs_sel[0], io, mo, engine))
             # cases explained by a listed known finding do not use up the budget of reported cases
             fresh_n = sum(1 for x in strong_found if not matches_known(prop, known, x[1], x[2])) + len(weak_found)
